@@ -13,6 +13,7 @@ from flowmark.linewrapping.tag_handling import (
 from flowmark.linewrapping.text_filling import DEFAULT_WRAP_WIDTH
 from flowmark.linewrapping.text_wrapping import (
     DEFAULT_LEN_FUNCTION,
+    markdown_escape_word,
     wrap_paragraph,
     wrap_paragraph_lines,
 )
@@ -41,6 +42,17 @@ def split_markdown_hard_breaks(text: str) -> list[str]:
     return _line_break_re.split(text)
 
 
+def _escape_segment_start(segment: str) -> str:
+    stripped = segment.lstrip()
+    words = stripped.split(None, 1)
+    if not words:
+        return segment
+    escaped = markdown_escape_word(words[0])
+    if escaped == words[0]:
+        return segment
+    return escaped + stripped[len(words[0]) :]
+
+
 def _add_markdown_hard_break_handling(base_wrapper: LineWrapper) -> LineWrapper:
     """
     Augments a LineWrapper to first split the text by Markdown hard breaks,
@@ -65,6 +77,10 @@ def _add_markdown_hard_break_handling(base_wrapper: LineWrapper) -> LineWrapper:
             is_last = i == len(segments) - 1
 
             cur_initial_indent = initial_indent if is_first else subsequent_indent
+            if not is_first:
+                # A later segment starts a line in the middle of the paragraph, so its first
+                # word needs the same escaping as a word that starts a wrapped line.
+                segment = _escape_segment_start(segment)
             wrapped_segment = base_wrapper(segment, cur_initial_indent, subsequent_indent)
             if is_last:
                 wrapped_segments.append(wrapped_segment)
